@@ -100,10 +100,12 @@ m = {
  "engines": [
    {"name": "nsv", "path": "/verif/harness", "serves_properties": sorted(claimed.keys()),
     "kind_free_text": "Rust harness: proptest TestRunner driven from a binary (fixed seeds, shrinking, replay files), bounded-exhaustive enumerators (weak orders, masks, pivot-sequence DFS), driver/worker processes, two build profiles"},
+   {"name": "nsv-fuzz", "path": "/verif/fuzz", "serves_properties": ["C01","C02","C03","C04","C11","C12","C13","C14","C15","C16","C18","C19"],
+    "kind_free_text": "cargo-fuzz / libFuzzer targets sel, nan, quant, hist (AddressSanitizer, debug assertions): bytes are decoded with arbitrary::Unstructured into the same case structs and judged by the same check functions; run by the thorough tier with a fixed number of runs and a seed derived from VERIF_SEED"},
  ],
  "checks": checks,
  "not_applicable": na,
- "notes": "All checks: exit 0 = held, 1 = VIOLATION line, 2 = inconclusive (build failure / watchdog). Known findings and fixed defects: known_findings.json; regression inputs: replays/.",
+ "notes": "All checks: exit 0 = held, 1 = VIOLATION line, 2 = inconclusive (build failure / watchdog / out of memory). Known findings and fixed defects: known_findings.json; regression inputs: replays/; independently seeded breaking changes and which checks catch them: seeded/ and DESIGN.md section 10.5. Env: VERIF_SEED, VERIF_TIER, NSV_CASE_SCALE (case-count multiplier), NSV_NO_FUZZ (skip libFuzzer in the thorough tier).",
 }
 json.dump(m, open(f"{ROOT}/MANIFEST.json","w"), indent=1)
 print("claimed", len(checks), "not_applicable", len(na))
